@@ -34,9 +34,11 @@ LEVEL_NOTE = "Trusts np.fft.ifft; the bounds have little slack on the unchanged 
 
 
 def in_scope_bank(bank):
+    from pydrobert.speech import filters as F
+
     name = type(bank).__name__
-    if name in ("TriangularOverlappingFilterBank", "Fbank", "GaborFilterBank"):
-        return True
+    if name in ("TriangularOverlappingFilterBank", "Fbank", "GaborFilterBank") or (isinstance(bank, F.Fbank) and type(bank).__module__.startswith("vf.")):
+        return True  # (the library's zero-phase banks, and a user's subclass of one of them - vf/userbank.py)
     if name == "ComplexGammatoneFilterBank":
         return bank.order >= 3 and not bank.scaled_l2_norm
     return False
@@ -242,6 +244,13 @@ def run_shard(spec, rec):
             for thr in (5e-5, 2e-3, 1e-6, 1e-8):
                 run_case({"idx": i, "seed": spec["seed"], "cfg": cfg, "threshold": thr}, rec, mon)
             rec.count("layouts_rebuilt_under_other_thresholds")
+        if i % 20 == 11:
+            # a user's subclass of Fbank that overrides the frequency-domain methods (vf/userbank.py): the inherited impulse response is
+            # the inverse DFT of *its* frequency response
+            ucfg = {"name": "vfgainfbank", "num_filts": int(rng.integers(2, 12)), "sampling_rate": int(rng.choice([8000, 16000])), "low_hz": 20.0, "high_hz": None,
+                    "analytic": bool(i % 40 == 11)}
+            run_case({"idx": i, "seed": spec["seed"], "cfg": ucfg, "threshold": None}, rec, mon)
+            rec.count("user_subclass_of_fbank_probed")
         if i % 10 == 7 and cfg["name"] == "gammatone":
             # the same layout again, as the bank's causal / centred counterpart (and back): two banks that differ in one flag only
             for flip in (True, False):
